@@ -5,9 +5,9 @@ CONSTANTS
   Packets <- MCPackets
   MaxTimers = 3
   MaxSess = 2
-  MaxTime = 500
+  MaxTime = 400
   MaxReqs = 2
-  MaxAns = 1
+  MaxAns = 2
   Reliable = FALSE
   Bug = "none"
 INVARIANT NoClosedLinkTx
